@@ -11,6 +11,7 @@ type Parser struct {
 	Lexer               lexer.Lexer
 	token               rune
 	ungetFlg            bool
+	eosReads            int
 	FileName            string
 	Row                 int
 	ErrorRow            int
